@@ -774,8 +774,9 @@ func (l *lexer) scanEscape() rune {
 		ch = l.next()
 	}
 
-	if ch == stopTok {
-		// Reset the string.
+	if ch == stopTok && l.hasError() {
+		// Invalid escape: reset the string. (The end of the input right
+		// after a valid escape also yields stopTok, and keeps the string.)
 		l.resetStrBuf()
 	}
 
